@@ -347,8 +347,31 @@ def summarise(prop, tier, R, results, bounded, wall, write=True, verbose=False):
         kf_printed.append({"obligation": pat, "what": k["what"], "failing_now": len(oids), "witness": wit})
     for k in known:
         if k.get("status") == "known" and k.get("property") == prop and not k.get("bounded") and not k.get("shape") \
-                and k.get("obligation") not in known_hits:
+                and k.get("obligation") and k.get("obligation") not in known_hits:
             out_lines.append("NOTE: known finding no longer observed (stale entry): %s" % k["obligation"])
+    # findings identified by a witness input only (behaviour no registered contract or harness family covers): the witness
+    # script is replayed on every run against the tree under check; exit 1 = still reproduces
+    wonly = [k for k in known if k.get("status") == "known" and k.get("property") == prop and k.get("kind") == "witness"]
+    if wonly:
+        from concurrent.futures import ThreadPoolExecutor
+
+        def _runw(k):
+            try:
+                with open(os.path.join(ROOT, k["witness"])) as wf:
+                    return native_run(wf.read(), timeout=60)
+            except Exception as e:
+                return -2, str(e)
+        with ThreadPoolExecutor(8) as ex:
+            outs = list(ex.map(_runw, wonly))
+        for k, (code, out) in zip(wonly, outs):
+            if code == 1:
+                out_lines.append("KNOWN-FINDING: property=%s %s [witness %s reproduces]" % (prop, k["what"], k["witness"]))
+                kf_printed.append({"witness_only": k["witness"], "what": k["what"], "reproduces": True})
+            elif code == 0:
+                out_lines.append("NOTE: known finding no longer observed (stale entry): witness %s exits 0" % k["witness"])
+            else:
+                out_lines.append("NOTE: witness %s of a known finding could not be replayed (exit %s): %s"
+                                 % (k["witness"], code, out[-200:].replace("\n", " | ")))
     viol_docs = []
     seen_oid = set()
     import re as _re
